@@ -116,6 +116,16 @@ func execKey(op string, a []string) string {
 	return "unknown-op"
 }
 
+// fullMacOfKey: the untruncated MAC of the key's family over data (nil when the key is unusable)
+func fullMacOfKey(k key.Key, data []byte) []byte {
+	kb, err := k.GetBytes(iana.SymmetricKeyParameterK)
+	if err != nil {
+		return nil
+	}
+	defer func() { recover() }()
+	return fullMac(int(k.Alg()), kb, data)
+}
+
 func applyOpsAfter(k key.Key, after []string) {
 	switch {
 	case len(after) == 0 || after[0] == "same":
@@ -157,6 +167,13 @@ func execImpl(op string, a []string) string {
 			if t2, err := m2.MACCreate(data); err == nil {
 				if m.MACVerify(data, t2) == nil {
 					v = "ok"
+					// the MACer realises its own algorithm's tag length only: the tag with more octets behind it, and the
+					// sibling algorithm's longer tag over the same key octets, are other tags
+					for _, longer := range [][]byte{append(append([]byte{}, t2...), 0), append(append([]byte{}, t2...), t2...), fullMacOfKey(k2, data)} {
+						if len(longer) > len(t2) && m.MACVerify(data, longer) == nil {
+							return "OVERLONG-TAG-ACCEPTED " + hx(longer)
+						}
+					}
 				}
 			}
 		}
